@@ -15,7 +15,9 @@ import (
 
 	capnp "capnproto.org/go/capnp/v3"
 	"capnproto.org/go/capnp/v3/encoding/text"
+	"capnproto.org/go/capnp/v3/schemas"
 	air "capnproto.org/go/capnp/v3/simaircraft"
+	"capnproto.org/go/capnp/v3/std/capnp/schema"
 	"capnproto.org/go/capnp/v3/simrt"
 	"verifh/ref/textlit"
 	"verifh/simio"
@@ -33,6 +35,117 @@ func init() {
 	if _, err := text.Marshal(air.Z_TypeID, z.Struct); err != nil {
 		panic("textsim warm-up: " + err.Error())
 	}
+	buildRegistries()
+}
+
+// Two more registries for the same type IDs (the "schema" half of "the output
+// depends only on the struct and schema"): regV1 holds the compiled-in schema
+// under an explicitly set registry, regV2 a second version of it in which every
+// field and enumerant name carries the suffix "V2".  An encoder that is switched
+// between them must render like a fresh encoder that was given the same registry.
+var regV1, regV2 schemas.Registry
+
+const v2Suffix = "V2"
+
+func buildRegistries() {
+	data, err := schemas.DefaultRegistry.Find(air.Z_TypeID)
+	if err != nil {
+		panic("textsim registries: " + err.Error())
+	}
+	mk := func(rename bool) *schemas.Schema {
+		src, err := capnp.Unmarshal(append([]byte(nil), data...))
+		if err != nil {
+			panic("textsim registries: " + err.Error())
+		}
+		src.TraverseLimit = 1<<63 - 1
+		sreq, err := schema.ReadRootCodeGeneratorRequest(src)
+		if err != nil {
+			panic("textsim registries: " + err.Error())
+		}
+		msg, seg, _ := capnp.NewMessage(capnp.SingleSegment(nil))
+		msg.TraverseLimit = 1<<63 - 1
+		req, _ := schema.NewRootCodeGeneratorRequest(seg)
+		if err := req.Struct.CopyFrom(sreq.Struct); err != nil {
+			panic("textsim registries: " + err.Error())
+		}
+		nodes, err := req.Nodes()
+		if err != nil {
+			panic("textsim registries: " + err.Error())
+		}
+		var ids []uint64
+		seen := map[uint64]bool{}
+		for i := 0; i < nodes.Len(); i++ {
+			n := nodes.At(i)
+			if !seen[n.Id()] { // the compiled-in request carries a few blank nodes with ID 0
+				seen[n.Id()] = true
+				ids = append(ids, n.Id())
+			}
+			if !rename {
+				continue
+			}
+			switch n.Which() {
+			case schema.Node_Which_structNode:
+				fs, _ := n.StructNode().Fields()
+				for j := 0; j < fs.Len(); j++ {
+					name, _ := fs.At(j).Name()
+					if err := fs.At(j).SetName(name + v2Suffix); err != nil {
+						panic("textsim registries: " + err.Error())
+					}
+				}
+			case schema.Node_Which_enum:
+				es, _ := n.Enum().Enumerants()
+				for j := 0; j < es.Len(); j++ {
+					name, _ := es.At(j).Name()
+					if err := es.At(j).SetName(name + v2Suffix); err != nil {
+						panic("textsim registries: " + err.Error())
+					}
+				}
+			}
+		}
+		out, err := msg.Marshal()
+		if err != nil {
+			panic("textsim registries: " + err.Error())
+		}
+		return &schemas.Schema{Bytes: out, Nodes: ids}
+	}
+	if err := regV1.Register(mk(false)); err != nil {
+		panic("textsim registries: " + err.Error())
+	}
+	if err := regV2.Register(mk(true)); err != nil {
+		panic("textsim registries: " + err.Error())
+	}
+}
+
+// stripV2 undoes the renaming of regV2 on a parsed rendering.  ok is false if a
+// field name or an identifier that should carry the suffix does not.
+func stripV2(p *textlit.Value, isName func(string) bool) (bad string) {
+	switch p.Kind {
+	case textlit.Struct:
+		for i := range p.Fields {
+			n := p.Fields[i].Name
+			if len(n) <= len(v2Suffix) || n[len(n)-len(v2Suffix):] != v2Suffix {
+				return "field name " + strconv.Quote(n)
+			}
+			p.Fields[i].Name = n[:len(n)-len(v2Suffix)]
+			if b := stripV2(p.Fields[i].V, isName); b != "" {
+				return b
+			}
+		}
+	case textlit.List:
+		for _, it := range p.Items {
+			if b := stripV2(it, isName); b != "" {
+				return b
+			}
+		}
+	case textlit.Token:
+		n := p.Raw
+		if len(n) > len(v2Suffix) && n[len(n)-len(v2Suffix):] == v2Suffix {
+			p.Raw = n[:len(n)-len(v2Suffix)]
+		} else if isName(n) {
+			return "enumerant " + strconv.Quote(n)
+		}
+	}
+	return ""
 }
 
 // ---- expected values
@@ -599,6 +712,7 @@ func (Engine) Run(t *testing.T, tape *simrt.Tape, opt worker.Options) *worker.Ou
 	encodes := 0
 	var key uint64
 	var desc []string
+	regs := opt.Params["reg"] == "1" || !tape.Replaying()
 	body := func(s *simrt.Sched) {
 		g := &gen{s: s}
 		long := s.Chance("long-history", 1, 60)
@@ -611,7 +725,28 @@ func (Engine) Run(t *testing.T, tape *simrt.Tape, opt worker.Options) *worker.Ou
 		var sink bytes.Buffer
 		old := text.NewEncoder(&sink)
 		var fixed sample
+		// which registry the encoder is using: 0 = never told (the default one), 1 = the default
+		// registry set explicitly, 2 = regV1, 3 = regV2
+		cur := 0
+		useReg := func(e *text.Encoder, r int) {
+			switch r {
+			case 1:
+				e.UseRegistry(&schemas.DefaultRegistry)
+			case 2:
+				e.UseRegistry(&regV1)
+			case 3:
+				e.UseRegistry(&regV2)
+			}
+		}
 		for i := 0; i < n && !s.Failed(); i++ {
+			if regs && s.Chance("switch-registry", 1, 5) {
+				cur = 1 + s.Choice("registry", 3)
+				useReg(old, cur)
+				s.Probe("registry_switch")
+				if cur == 3 {
+					s.Probe("registry_v2")
+				}
+			}
 			var v sample
 			if long && i > 0 && i%97 != 0 {
 				v = fixed // re-render one value most of the time: cheap, and the history is what matters
@@ -624,7 +759,9 @@ func (Engine) Run(t *testing.T, tape *simrt.Tape, opt worker.Options) *worker.Ou
 			errOld := old.Encode(v.typeID, v.st)
 			gotOld := append([]byte(nil), sink.Bytes()...)
 			var fb bytes.Buffer
-			errNew := text.NewEncoder(&fb).Encode(v.typeID, v.st)
+			fresh := text.NewEncoder(&fb)
+			useReg(fresh, cur)
+			errNew := fresh.Encode(v.typeID, v.st)
 			gotNew := fb.Bytes()
 			if (errOld == nil) != (errNew == nil) || !bytes.Equal(gotOld, gotNew) {
 				s.Fail("text_history", "marshal.go:(*Encoder).Encode", fmt.Sprintf("Encode #%d on a long-lived encoder gives %s (err=%v) but a fresh encoder gives %s (err=%v) for the same value", i+1, short(gotOld), errOld, short(gotNew), errNew))
@@ -642,6 +779,19 @@ func (Engine) Run(t *testing.T, tape *simrt.Tape, opt worker.Options) *worker.Ou
 			if err != nil {
 				s.Fail("text_literal", "strquote.go:Append", fmt.Sprintf("the rendering is not a well-formed text value: %v\ntext: %s", err, short(gotNew)))
 				return
+			}
+			if cur == 3 {
+				if b := stripV2(pv, func(n string) bool {
+					for _, a := range airports {
+						if a == n {
+							return true
+						}
+					}
+					return false
+				}); b != "" {
+					s.Fail("text_schema", "marshal.go:(*Encoder).UseRegistry", fmt.Sprintf("the encoder was given a registry in which every name ends in %q, but the text shows %s\ntext: %s", v2Suffix, b, short(gotNew)))
+					return
+				}
 			}
 			if err := compare(pv, v.want, "value"); err != nil {
 				s.Fail("text_literal", "marshal.go:(*Encoder).marshalFieldValue", fmt.Sprintf("the rendering does not show the values set through the generated accessors: %v\ntext: %s", err, short(gotNew)))
@@ -681,6 +831,7 @@ func (Engine) Run(t *testing.T, tape *simrt.Tape, opt worker.Options) *worker.Ou
 					sink = byteSink{w}
 				}
 				enc := text.NewEncoder(sink)
+				useReg(enc, cur)
 				err := enc.Encode(v.typeID, v.st)
 				fired := w.Writes >= failAt
 				if fired && err == nil {
@@ -705,6 +856,9 @@ func (Engine) Run(t *testing.T, tape *simrt.Tape, opt worker.Options) *worker.Ou
 	oc.NonTrivial = encodes > 1
 	oc.Key = key
 	oc.Sample = map[string]interface{}{"history": desc, "encodes": encodes}
+	if regs {
+		oc.ReplayParams = map[string]string{"reg": "1"}
+	}
 	if oc.Probes == nil {
 		oc.Probes = map[string]int{}
 	}
